@@ -615,13 +615,13 @@ PingFire(i) ==
     /\ UNCHANGED <<now, polls, wsr, wsin, wsw, wsgone, joiners, mon, nreq>>
 
 \* queue.join() returns
-JoinReturn(i) ==
+JoinReturnWith(i, latch) ==
     /\ i \in 1..Len(joiners)
     /\ LET j == joiners[i]
            ret == [k |-> "ret", cid |-> j.id]
        IN \* threading: join() re-checks the counter when it runs; asyncio: join() returns once
           \* the counter has reached zero, even if something was put since
-          /\ g.ss[j.s].unf = 0 \/ (ImplJoinLatch /\ g.jzero[j.s])
+          /\ g.ss[j.s].unf = 0 \/ (latch /\ g.jzero[j.s])
           /\ CASE j.kind = "req" ->
                     /\ g' = Resp([g EXCEPT !.table = @ \ {j.s}], j.id, 400, <<>>)
                     /\ joiners' = RemoveAt(joiners, i)
@@ -644,6 +644,8 @@ JoinReturn(i) ==
                                   k # i /\ joiners[k].kind = "allc" /\ joiners[k].id = j.id
                             THEN g ELSE Out([g EXCEPT !.table = {}], ret)
     /\ UNCHANGED <<now, polls, psleep, wsr, wsin, wsw, wsgone, mon, nreq>>
+
+JoinReturn(i) == JoinReturnWith(i, ImplJoinLatch)
 
 (* ---- websocket handler (reader) and writer ---- *)
 
